@@ -180,7 +180,7 @@ def fold_check(canon, calls, ops, flags, compare_eof=True):
         if _eof_key(exp) != _eof_key(group):
             out.append(V("L2E", "end-result-depends-on-schedule", group[0].op, group[0].sid,
                          "%s after %d atomic steps: expected %s got %s" % (
-                             kind, ai, [c.brief() for c in exp], [c.brief() for c in group])))
+                             kind, ai, [(c.brief(), c.snap) for c in exp], [(c.brief(), c.snap) for c in group])))
             diverged = True
 
     for c in calls:
